@@ -1995,6 +1995,10 @@ func (t *Topic) anotherUserSub(sess *Session, asUid, target types.Uid, asChan bo
 			modeGiven = t.accessFor(auth.LevelAuth)
 			// Enable new subscription even if default is no joiner.
 			modeGiven |= types.ModeJoin
+			if t.cat == types.TopicCatP2P {
+				// Same limits as for an explicit mode: P2P permissions always include 'A'.
+				modeGiven = (modeGiven & types.ModeCP2P) | types.ModeApprove
+			}
 		}
 
 		var modeWant types.AccessMode
